@@ -11,10 +11,10 @@ TXT = {
  "C02": "Design: invariant over all DAGs/interleavings that every started function has all transitive predecessors (successors in reverse) ended. Code: TLC checks it at each start/yield against the closure of the user edges recorded from the builder calls.",
  "C03": "Design: at-most-once as invariant; exactly-once at return of clean runs; channel capacity is a model parameter whose reduction fails. Code: same predicates on every start/return/stream-end event, incl. wide graphs (20-80 functions).",
  "C04": "Design: invariant `idle and nothing in flight implies returned`, no panic action reachable, everything started ended at return, and <>returned under fairness, for graphs from 0 nodes. Code: idleness is observed (Pending and waker flag not set) at every poll of every schedule explored; panics are caught and judged.",
- "C05": "Design: the poll function of stream() is transcribed with tokio's waker registration; invariant NoStall after every Pending poll over all poll/drop interleavings, end-exactness, liveness under a fair consumer. Code: every interleaving of polls and FnRef drops (never a spurious poll) for small graphs, random consumers for larger ones.",
+ "C05": "Design: the poll function of stream() is transcribed with tokio's waker registration; invariant NoStall after every Pending poll over all poll/drop interleavings (all DAGs on <=3, thorough 4-5 functions), end-exactness, liveness under a fair consumer. Code: every interleaving of polls and FnRef drops (never a spurious poll) for small graphs; random, sequential and batching consumers on graphs up to 140 functions, also inside a tokio runtime (cooperative budget); every poll and drop is additionally compared with the model's predicted outcome and waker flag (TraceStream).",
  "C06": "Design: invariant at idle states of unlimited, unsignalled, failure-free runs; Builder invariant that every non-user edge is a Data edge between conflicting functions. Code: evaluated at every observed quiescent point against the built edges the code reports.",
  "C07": "Design: invariants for every failing subset (<=2-3) of every DAG: no descendant of a failed function started, errors = failed at return, try_fold stops. Code: same on every trace of the try APIs with failing functions at every position.",
- "C08": "Design: InterruptibleStream transcribed (IStream); bound on hand-outs after the signal for every signal position incl. mid-poll (async environment) and pre-pending. Code: signal fired at every between-poll point of every schedule; TLC counts starts after it.",
+ "C08": "Design: InterruptibleStream transcribed (IStream, also checked alone over an arbitrary inner stream); bound on functions handed out by the ready stream after the signal for every signal position incl. mid-poll and pre-pending; the bound on STARTS is shown to fail for the for_each bodies under a mid-poll signal (expected-to-fail design run). Code: signal fired at every between-poll point of every schedule and from inside completing user futures, senders dropped early, tokio budget on; TLC counts starts after the signal. One known finding (mid-poll signal, for_each bodies) is listed in known_findings.json and printed as KNOWN-FINDING.",
  "C09": "Design: outcome fields vs observation history at return on every exit path. Code: `return` event compared by TLC with the start events of the same run.",
  "C10": "Design: |running| <= limit invariant, completion under every limit (liveness cfg). Code: checked at each start; completion through the clean-run clause.",
  "C11": "Design: the augmenter loop transcribed; no-panic, acyclic, user edges kept, Data only between conflicting, every conflict ordered, for all labelled DAGs x declarations in the bound. Code: one builder run per input, `build` event judged by TLC.",
